@@ -17,7 +17,8 @@ RULE = (
     "length <= 1 (quick) / <= 2 (thorough) over the boundary alphabet '0125 69afg.:/_- ' and core over a table of "
     "address / near-miss cores (all i::j group splits, 7/8/9 groups, 255/256, 3/4/5 parts, leading zeros, /len, IPv4 "
     "tails, zones); atoms: EVERY sequence of <= 4 (quick) / <= 6 (thorough) atoms of {1,25,255,256,00,a,g,.,:,::,/,space}. "
-    "Each string goes through anonymize_ip_addr (IPv6 then IPv4) and through FileAnonymizer.anonymize_io; expected text "
+    "Each string goes through anonymize_ip_addr (IPv6 then IPv4) and through FileAnonymizer.anonymize_io (a quarter of the "
+    "generated lines in the undo direction); expected text "
     "from the independent scanner vf/ref/tokens.py + a fresh anonymizer's integer image. Non-trivial = string containing a "
     "valid address in non-canonical spelling or next to a non-space delimiter, or a near-miss; distinct by string."
 )
@@ -38,11 +39,12 @@ def _ctx(cfg_key, cfg):
             "r4": G.mk4(cfg),
             "r6": G.mk6(cfg),
             "fa": G.file_anonymizer(cfg),
+            "fu": G.file_anonymizer(cfg, True),
         }
     return _CTX[cfg_key]
 
 
-def _attribute(line, want, got, cfg, r4, r6):
+def _attribute(line, want, got, cfg, r4, r6, undo=False):
     """Name the class of the first super-token that was mishandled."""
     pos = 0
     gpos = 0
@@ -53,7 +55,7 @@ def _attribute(line, want, got, cfg, r4, r6):
             return "text-between-tokens", "changed"
         gpos += len(sep)
         tok = line[i:j]
-        exp, _ = T.expected(tok, r4.anonymize, r6.anonymize, preserved)
+        exp, _ = T.expected(tok, r4.deanonymize if undo else r4.anonymize, r6.deanonymize if undo else r6.anonymize, preserved)
         pos = j
         if exp is None:
             return "ambiguous", "?"
@@ -76,13 +78,13 @@ def _plain_kind(tok):
     return "word"
 
 
-def run_both(line, cx):
+def run_both(line, cx, undo=False):
     from netconan.ip_anonymization import anonymize_ip_addr
 
-    got, exc = guarded(lambda: anonymize_ip_addr(cx["a4"], anonymize_ip_addr(cx["a6"], line)))
+    got, exc = guarded(lambda: anonymize_ip_addr(cx["a4"], anonymize_ip_addr(cx["a6"], line, undo), undo))
     if exc is not None:
         return None, None, exc
-    got2, exc = guarded(core.run_io, cx["fa"], line + "\n")
+    got2, exc = guarded(core.run_io, cx["fu"] if undo else cx["fa"], line + "\n")
     if exc is not None:
         return None, None, exc
     return got, got2[:-1] if got2.endswith("\n") else got2, None
@@ -92,11 +94,13 @@ def check_line(case, ev, cx=None):
     """case: {line, cfg}"""
     line, cfg = case["line"], case["cfg"]
     if cx is None:
-        cx, exc = guarded(lambda: {"a4": G.mk4(cfg), "a6": G.mk6(cfg), "r4": G.mk4(cfg), "r6": G.mk6(cfg), "fa": G.file_anonymizer(cfg)})
+        cx, exc = guarded(lambda: {"a4": G.mk4(cfg), "a6": G.mk6(cfg), "r4": G.mk4(cfg), "r6": G.mk6(cfg), "fa": G.file_anonymizer(cfg), "fu": G.file_anonymizer(cfg, True)})
         if exc is not None:
             return core.exc_finding(exc, case, "ctor/")
     preserved = lambda n: any(G.in_net(n, c) for c in cfg.get("networks") or [])
-    want, classes = T.expected(line, cx["r4"].anonymize, cx["r6"].anonymize, preserved)
+    undo = bool(case.get("undo"))
+    m4, m6 = (cx["r4"].deanonymize, cx["r6"].deanonymize) if undo else (cx["r4"].anonymize, cx["r6"].anonymize)
+    want, classes = T.expected(line, m4, m6, preserved)
     if want is None:
         ev.evaluations += 1
         ev.excluded_domain["mixed_ambiguous"] += 1
@@ -111,14 +115,14 @@ def check_line(case, ev, cx=None):
                 nt = True
         elif k == "plain" and _plain_kind(line[i:j]) != "word":
             nt = True
-    ev.case(case["line"], nt, sorted(set(classes)))
-    got, got_io, exc = run_both(line, cx)
+    ev.case(case["line"], nt, sorted(set(classes)) + (["undo-direction"] if undo else []))
+    got, got_io, exc = run_both(line, cx, undo)
     if exc is not None:
         return core.exc_finding(exc, case, "subst/")
     for via, g in (("line", got), ("io", got_io)):
         if g != want:
-            cls, side = _attribute(line, want, g, cfg, cx["r4"], cx["r6"])
-            return Finding("subst/%s:%s%s" % (cls, side, "" if got == got_io else ":only-via-" + via), "cfg=%r line %r -> %r (via %s), expected %r" % (cfg, line, g, via, want), case)
+            cls, side = _attribute(line, want, g, cfg, cx["r4"], cx["r6"], undo)
+            return Finding("subst/%s:%s%s%s" % (cls, side, "" if got == got_io else ":only-via-" + via, ":undo" if undo else ""), "cfg=%r line %r -> %r (via %s), expected %r" % (cfg, line, g, via, want), case)
     return None
 
 
@@ -203,7 +207,7 @@ def _line_case(draw):
         # glue something to a token: exercises the boundary rules with arbitrary characters
         i = draw(st.integers(0, len(line)))
         line = line[:i] + draw(st.text(alphabet=st.sampled_from(list(BOUNDARY) + ["é", "\t", "%", "x", "Z"]), min_size=1, max_size=2)) + line[i:]
-    return {"line": line, "cfg": cfg}
+    return {"line": line, "cfg": cfg, "undo": draw(st.integers(0, 3)) == 0}
 
 
 def t_lines(shard, nshards, seed, ev, known, n=500):
